@@ -230,6 +230,42 @@ def known_id(known, fid):
     return None
 
 
+def state_query_fails(st, hs):
+    """P03d: in a standard wired world within the envelope QueryMsg::State cannot fail (its only checked
+    subtraction cannot underflow, the ratios fit a Decimal, both token contracts answer TokenInfo).  The
+    pricing monitors read everything from that query: a State query that fails would silence them."""
+    v = st.one('hub.state')
+    if v is None or not v or v[0] != 'err':
+        return None
+    if not wired(st, hs) or not in_envelope(st) or supply(st, 'bsei') is None or supply(st, 'stsei') is None:
+        return None
+    return ('violation', 'QueryMsg::State fails in a standard wired world within the envelope (stored state %s, bSei supply %d, '
+            'stSei supply %d, %d delegated): bonding, unbonding and conversion all start with this computation'
+            % (' '.join(st.one('hub.stored')), supply(st, 'bsei'), supply(st, 'stsei'), sum(delegs(st).values())))
+
+
+def registry_names(st):
+    """names returned by the registry's GetValidatorsForDelegation; None if the query fails / no registry"""
+    v = st.one('rg.vals')
+    if v is None or (v and v[0] == 'err'):
+        return None
+    return set(x.split(':')[0] for x in v if x)
+
+
+def unregistered_delegate(tl, cur):
+    """P13a / S7: every Delegate the hub emits goes to a validator of the registry as it is AFTER the
+    transaction: the registry changes only by root AddValidator / RemoveValidator messages, an added
+    validator comes with no bond, and RemoveValidator removes the entry before it makes the hub re-bond
+    anything - so the registry a bond saw is the registry the dump shows"""
+    names = registry_names(cur)
+    if names is None:
+        return None
+    for x in tl:
+        if x[1] == 'delegate' and x[2] == 'hub' and x[3] not in names:
+            return x
+    return None
+
+
 # ------------------------------------------------------------------ C01
 def mon_c01(hs, prev, op, ok, trace, cur, known):
     t = track_inst(hs, op, ok)
@@ -248,6 +284,24 @@ def mon_c01(hs, prev, op, ok, trace, cur, known):
                     dl_[int(x[3])] = dl_.get(int(x[3]), 0) + int(x[2])
     if t[0] == 'slash' and ok and len(t) > 4 and t[4] == '1':
         hs['unb_slashed'] = True
+    # P01a: prev_hub_balance is written by WithdrawUnbonded only (balance found minus the amount paid, i.e.
+    # the liquid balance the hub is left with); every other handler saves the State it loaded.  The release
+    # accounting measures "coins that arrived" against it, so a handler that resets it (or a withdrawal
+    # that does not refresh it) silently corrupts every later release
+    if prev is not None and t[0] not in ('inst_hub', 'reset') and not t[0].startswith('poke_'):
+        ps_, cs_, pp_ = stored(prev), stored(cur), prev.one('hub.params')
+        if ps_ is not None and cs_ is not None and pp_ is not None:
+            nwd = sum(1 for x in trace_lines(trace) if x[1] == 'wasm' and x[3] == 'hub' and x[4] == 'withdraw_unbonded') if ok else 0
+            if nwd == 0:
+                if cs_[5] != ps_[5]:
+                    return ('violation', 'prev_hub_balance changed from %d to %d in %r, which is not a withdrawal'
+                            % (ps_[5], cs_[5], op))
+            elif nwd == 1 and t[0] == 'hub' and len(t) > 2 and t[2] == 'withdraw' and t[1] != 'hub':
+                liquid_ = bank(cur, 'hub', pp_[1])
+                if cs_[5] != liquid_:
+                    return ('violation', 'after WithdrawUnbonded by %s prev_hub_balance is %d but the hub holds %d %s '
+                            '(was %d before the payment): the next release would measure the arrived coins against a wrong base'
+                            % (t[1], cs_[5], liquid_, pp_[1], bank(prev, 'hub', pp_[1])))
     if hs.get('legacy') or not wired(cur, hs) or not in_envelope(cur) or oldwait(cur) != 0:
         return None
     h = hist(cur)
@@ -354,6 +408,27 @@ def mon_c01(hs, prev, op, ok, trace, cur, known):
     return None
 
 
+def mon_released_immutable(hs, prev, op, ok, trace, cur, known):
+    """P01b (order independence of withdrawals): once a batch is released its history entry - the final
+    withdraw rates every claim on it is paid at - never changes and never disappears, whoever withdraws
+    first (the release scan stops at released entries)"""
+    t = track_inst(hs, op, ok)
+    if prev is None or prev.one('hub.cfg') is None or cur.one('hub.cfg') is None:
+        return None
+    if t[0] in ('inst_hub', 'reset') or t[0].startswith('poke_'):
+        return None
+    ph, h = hist(prev), hist(cur)
+    for i, e in ph.items():
+        if not e['rel']:
+            continue
+        if i not in h:
+            return ('violation', 'released history entry %d disappeared in %r' % (i, op))
+        if h[i]['raw'] != e['raw']:
+            return ('violation', 'released batch %d changed in %r: %s -> %s (claims on it are paid at different rates depending on '
+                    'who withdraws first)' % (i, op, ' '.join(e['raw']), ' '.join(h[i]['raw'])))
+    return None
+
+
 # ------------------------------------------------------------------ C02
 HUB_SYNC_TAGS = ('bond', 'bond_for_st_sei', 'bond_rewards', 'receive', 'check_slashing')
 
@@ -368,11 +443,12 @@ def mon_c02(hs, prev, op, ok, trace, cur, known):
     dl = delegs(cur)
     if synced and len(delegs(prev)) > 0 and (s[2] + s[3]) > sum(dl.values()):
         return ('violation', 'hub books %d bonded but only %d is delegated' % (s[2] + s[3], sum(dl.values())))
-    # bonds are delegated in full, to registered validators only
-    pvals = prev.one('rg.vals')
-    registered = set()
-    if pvals and pvals[0] != 'err':
-        registered = set(x.split(':')[0] for x in pvals)
+    # bonds are delegated in full, to registered validators only (S7: the registry as the bond saw it is
+    # the registry after the transaction - RemoveValidator removes the entry before the hub re-bonds)
+    bad = unregistered_delegate(tl, cur)
+    if bad is not None:
+        return ('violation', 'the hub delegated %s to %s which is not a registered validator (registry: %s)'
+                % (bad[4], bad[3], ' '.join(sorted(registry_names(cur)))))
     for i, x in enumerate(tl):
         if x[1] == 'wasm' and x[3] == 'hub' and x[4] in ('bond', 'bond_for_st_sei', 'bond_rewards'):
             pay = sum(a for d, a in coins(x[5]) if d == 'usei')
@@ -380,9 +456,6 @@ def mon_c02(hs, prev, op, ok, trace, cur, known):
             j = i + 1
             while j < len(tl) and tl[j][1] == 'delegate' and tl[j][2] == 'hub':
                 tot += int(tl[j][4])
-                if registered and tl[j][3] not in registered:
-                    # a validator added earlier in the same transaction cannot occur (registry ops are separate txs)
-                    return ('violation', 'bond delegated to %s which is not a registered validator' % tl[j][3])
                 j += 1
             if tot != pay:
                 return ('violation', 'bond of %d usei delegated %d' % (pay, tot))
@@ -412,11 +485,46 @@ def mon_c02(hs, prev, op, ok, trace, cur, known):
     return None
 
 
+def mon_pool_booking(hs, prev, op, ok, trace, cur, known):
+    """P02a: a payment is booked to the pool of the token it was bonded for - Bond to the bSei pool,
+    BondForStSei and BondRewards (also inside UpdateGlobalIndex / RemoveValidator trees) to the stSei pool -
+    on top of the pools the slashing check stores first (= what the State query reported before)"""
+    t = track_inst(hs, op, ok)
+    if not ok or prev is None or not wired(prev, hs) or not wired(cur, hs) or not in_envelope(prev):
+        return None
+    pq, s = qstate(prev), stored(cur)
+    if pq is None or s is None:
+        return None
+    tl = trace_lines(trace)
+    addb = adds = 0
+    kinds = []
+    for x in tl:
+        if x[1] == 'undelegate' or (x[1] == 'wasm' and x[3] == 'hub' and x[4] == 'receive'):
+            return None     # unbond / convert move the pools too (priced by the C03 / C06 monitors)
+        if x[1] == 'wasm' and x[3] == 'hub' and x[4] in ('bond', 'bond_for_st_sei', 'bond_rewards'):
+            pay = sum(a for d, a in coins(x[5]) if d == 'usei')
+            kinds.append(x[4])
+            if x[4] == 'bond':
+                addb += pay
+            else:
+                adds += pay
+    if not kinds:
+        return None
+    if (s[2], s[3]) != (pq[2] + addb, pq[3] + adds):
+        return ('violation', '%s of %d usei: the pools went from (bSei %d, stSei %d) to (bSei %d, stSei %d), expected (bSei %d, stSei %d) - '
+                'the payment was booked to the wrong pool or not in full'
+                % ('+'.join(kinds), addb + adds, pq[2], pq[3], s[2], s[3], pq[2] + addb, pq[3] + adds))
+    return None
+
+
 # ------------------------------------------------------------------ C03
 def mon_c03(hs, prev, op, ok, trace, cur, known):
     t = track_inst(hs, op, ok)
     if not wired(cur, hs) or not in_envelope(cur):
         return None
+    qf = state_query_fails(cur, hs)
+    if qf is not None:
+        return qf
     q = qstate(cur)
     b = batch(cur)
     if q is not None and recomputes(cur):
@@ -429,7 +537,10 @@ def mon_c03(hs, prev, op, ok, trace, cur, known):
     if not ok or prev is None or not standard(prev, cur, hs):
         return None
     pq = qstate(prev)
-    if pq is None or not recomputes(prev):
+    # (S9: no `recomputes(prev)` guard for the pricing clauses - the slashing check every pricing message starts
+    # with and the State query are the same function, and both return the STORED state unchanged when the hub
+    # has no delegation or books nothing: also the first bond ever is priced at the rate the query reported)
+    if pq is None:
         return None
     hp = ints([prev.one('hub.params')[i] for i in (3, 4)])
     pegfee, thr = hp
@@ -486,6 +597,34 @@ def mon_c03(hs, prev, op, ok, trace, cur, known):
             return ('violation', 'convert moved %d coins between the pools, floor(tokens x rate) = %d' % (moved_b, value))
         if tok == 'bsei' and -moved_b > value:
             return ('violation', 'convert moved %d coins out of the bsei pool, more than floor(tokens x rate) = %d' % (-moved_b, value))
+        # P03a: lower bounds and the minted-to-moved tie (the peg fee is at most amount x peg_recovery_fee and
+        # is charged only below the threshold; floors are monotone); the converted tokens go to the cw20 sender
+        if rs > 0 and rd > 0:
+            rb = pq[0]
+            if tok == 'stsei':
+                if rb >= thr and minted != nofee:
+                    return ('violation', 'convert of %d stsei (value %d) at bsei rate %d >= threshold %d minted %d bsei, floor(value/rate) = %d'
+                            % (amt, value, rb, thr, minted, nofee))
+                if rb < thr and minted < nofee - nofee * pegfee // D:
+                    return ('violation', 'convert of %d stsei minted %d bsei, less than the no-fee amount %d minus the maximal peg fee %d'
+                            % (amt, minted, nofee, nofee * pegfee // D))
+            else:
+                moved = -moved_b
+                if minted != moved * D // rd:
+                    return ('violation', 'convert of %d bsei moved %d coins into the stsei pool at stsei rate %d but minted %d stsei, '
+                            'floor(coins/rate) = %d' % (amt, moved, rd, minted, moved * D // rd))
+                if rb >= thr and moved != value:
+                    return ('violation', 'convert of %d bsei at rate %d >= threshold %d moved %d coins, floor(tokens x rate) = %d (a fee was charged '
+                            'at or above the threshold)' % (amt, rb, thr, moved, value))
+                low = (amt - amt * pegfee // D) * rb // D
+                if rb < thr and moved < low:
+                    return ('violation', 'convert of %d bsei moved only %d coins: even after the maximal peg fee %d the remaining tokens are worth %d'
+                            % (amt, moved, amt * pegfee // D, low))
+            ob = {x[0]: int(x[1]) for x in prev.all('tok.%s.bal' % other)}
+            oc = {x[0]: int(x[1]) for x in cur.all('tok.%s.bal' % other)}
+            got = oc.get(t[2], 0) - ob.get(t[2], 0)
+            if got != minted:
+                return ('violation', 'convert by %s minted %d %s but the balance of %s moved by %d' % (t[2], minted, other, t[2], got))
     # batch undelegation priced at the recorded rates
     ph, ch = hist(prev), hist(cur)
     for i in ch:
@@ -504,12 +643,28 @@ def mon_c03(hs, prev, op, ok, trace, cur, known):
                 if t[1] == 'stsei' and e['bamt'] > 0 and e['bapp'] != pq[0]:
                     return ('violation', 'batch %d: the bSei requests were undelegated at rate %d, the State query reported %d just before'
                             % (i, e['bapp'], pq[0]))
+                # P03b: the ARRIVING token. An stSei unbond never refreshes the stSei rate before the batch
+                # closes; a bSei unbond recomputes the bSei rate with the burnt tokens gone and the request
+                # (after the peg fee) added: backing over (supply - amount + requests of the closed batch)
+                if t[-1] == 'unbond' and t[-3] == 'hub':
+                    if t[1] == 'stsei' and e['sapp'] != pq[1]:
+                        return ('violation', 'batch %d closed by an stSei unbond: the stSei requests were undelegated at rate %d, the State query '
+                                'reported %d just before' % (i, e['sapp'], pq[1]))
+                    if t[1] == 'bsei':
+                        claims_ = supply(prev, 'bsei') - int(t[-2]) + e['bamt']
+                        if claims_ >= 0 and e['bapp'] != rate_of(pq[2], claims_):
+                            return ('violation', 'batch %d closed by a bSei unbond of %s: the bSei requests were undelegated at rate %d; backing %d over '
+                                    'claims %d (supply %d - burnt %s + requests %d) is %d'
+                                    % (i, t[-2], e['bapp'], pq[2], claims_, supply(prev, 'bsei'), t[-2], e['bamt'], rate_of(pq[2], claims_)))
     return None
 
 
 # ------------------------------------------------------------------ C04
 def mon_c04(hs, prev, op, ok, trace, cur, known):
     t = track_inst(hs, op, ok)
+    qf = state_query_fails(cur, hs)
+    if qf is not None:
+        return qf
     if prev is None or t[0] in ('slash', 'reset') or t[0].startswith('inst_') or t[0] == 'legacy_wait':
         return None
     if t[0] == 'hub' and len(t) > 2 and t[2] in ('config', 'params', 'migrate'):
@@ -536,15 +691,30 @@ def mon_c04(hs, prev, op, ok, trace, cur, known):
             continue
         if cq[idx] < pq[idx]:
             return ('violation', '%s rate fell from %d to %d in %r (no slashing)' % (tok, pq[idx], cq[idx], op))
-    if ok and t[0] == 'bond' and t[1] == 'rw':
-        if supply(cur, 'stsei') != supply(prev, 'stsei'):
-            return ('violation', 'BondRewards changed the stsei supply')
+    # P04a: every executed BondRewards (root, or inside an UpdateGlobalIndex / RemoveValidator tree) mints
+    # no stSei and - while the stSei claims are at most 1e18 - raises the stSei rate strictly: the pool
+    # grows by X >= 1 over unchanged claims C <= 1e18, and X * 1e18 / C >= 1
+    if ok:
+        rew = 0
+        for x in trace_lines(trace):
+            if x[1] == 'wasm' and x[3] == 'hub' and x[4] == 'bond_rewards':
+                rew += sum(a for d, a in coins(x[5]) if d == 'usei')
+        if rew >= 1:
+            if supply(cur, 'stsei') != supply(prev, 'stsei'):
+                return ('violation', 'BondRewards of %d usei changed the stsei supply %d -> %d' % (rew, supply(prev, 'stsei'), supply(cur, 'stsei')))
+            cst = supply(cur, 'stsei') + cb[2]
+            if 0 < cst <= D and cb[2] == pb[2] and cq[1] <= pq[1]:
+                return ('violation', 'BondRewards of %d usei did not raise the stsei rate: %d -> %d (pool %d -> %d over claims %d)'
+                        % (rew, pq[1], cq[1], pq[3], cq[3], cst))
     return None
 
 
 # ------------------------------------------------------------------ C05
 def mon_c05(hs, prev, op, ok, trace, cur, known):
     t = track_inst(hs, op, ok)
+    qf = state_query_fails(cur, hs)
+    if qf is not None:
+        return qf
     if not ok or prev is None or not standard(prev, cur, hs):
         return None
     pq, cq = qstate(prev), qstate(cur)
@@ -585,7 +755,23 @@ def mon_c05(hs, prev, op, ok, trace, cur, known):
         credited = sum(w[2] for w in waits(cur)) - sum(w[2] for w in waits(prev))
         nofee = amt
     elif path == 'conv_bsei':
-        return None  # fee is internal to the conversion; bounded through C03's pricing monitor
+        # P03a: the fee is internal to the conversion (taken in bSei before pricing); it shows in the coins
+        # that leave the bSei pool: floor((amount - fee) x rate), with 0 <= fee <= floor(amount x peg_recovery_fee)
+        # below the threshold and fee = 0 at or above it
+        amt = int(t[-2])
+        moved = pq[2] - stored(cur)[2]
+        full = amt * r // D
+        if moved > full:
+            return ('violation', 'conv_bsei of %d at rate %d moved %d coins out of the bsei pool, more than floor(tokens x rate) = %d (negative fee)'
+                    % (amt, r, moved, full))
+        if r >= thr and moved != full:
+            return ('violation', 'conv_bsei of %d charged a fee (moved %d coins, floor(tokens x rate) = %d) although the rate %d is not below '
+                    'the threshold %d' % (amt, moved, full, r, thr))
+        low = (amt - amt * pegfee // D) * r // D
+        if moved < low:
+            return ('violation', 'conv_bsei of %d charged a fee of more than amount x peg_recovery_fee = %d tokens: %d coins moved, '
+                    'the tokens left after the maximal fee are worth %d' % (amt, amt * pegfee // D, moved, low))
+        return None
     elif path == 'bond':
         n = int(t[3])
         pay = sum(int(t[5 + 2 * i]) for i in range(n) if t[4 + 2 * i] == 'usei')
@@ -610,6 +796,9 @@ def mon_c06(hs, prev, op, ok, trace, cur, known):
     t = track_inst(hs, op, ok)
     if not wired(cur, hs) or not in_envelope(cur):
         return None
+    qf = state_query_fails(cur, hs)
+    if qf is not None:
+        return qf
     s, q = stored(cur), qstate(cur)
     dl = delegs(cur)
     if s is not None and q is not None and recomputes(cur):
@@ -645,6 +834,10 @@ def mon_c06(hs, prev, op, ok, trace, cur, known):
         pq = qstate(prev)
         if pq is not None and recomputes(prev) and (s[2], s[3]) != (pq[2], pq[3]):
             return ('violation', 'CheckSlashing stored pools (%d,%d), the synchronised pools are (%d,%d)' % (s[2], s[3], pq[2], pq[3]))
+        # P06a: ... and the refreshed rates with them (execute_slashing saves exactly what the query computes)
+        if pq is not None and recomputes(prev) and (s[0], s[1]) != (pq[0], pq[1]):
+            return ('violation', 'CheckSlashing stored rates (bSei %d, stSei %d), the State query computed (bSei %d, stSei %d) just before'
+                    % (s[0], s[1], pq[0], pq[1]))
     # release group: loss spread pro rata per token type
     if t[0] == 'hub' and t[2] == 'withdraw' and standard(prev, cur, hs):
         ph, ch = hist(prev), hist(cur)
@@ -705,6 +898,31 @@ def mon_c07(hs, prev, op, ok, trace, cur, known):
     for i, e in h.items():
         if not e['rel'] and i not in per and (e['bamt'], e['samt']) != (0, 0):
             return ('violation', 'batch %d records (%d,%d) but no user holds a claim on it' % (i, e['bamt'], e['samt']))
+    # P07a: the paged AllHistory answers (small pages 2|3|2|3 with the last id as cursor, the default limit 10,
+    # the maximal limit 100) are faithful to the stored history: same ids in ascending order, no entry
+    # skipped or repeated at a page boundary, and the deprecated alias fields carry the bSei values
+    qh = cur.all('hub.qhist')
+    if not any(x and x[0] == 'err' for x in qh):
+        ids_ = sorted(h)
+        want_, cursor_ = [], 0
+        for k_, lim_ in enumerate((2, 3, 2, 3)):
+            page_ = [i for i in ids_ if i > cursor_][:lim_]
+            want_ += [[str(k_), str(i), str(h[i]['bamt']), str(h[i]['bapp']), str(h[i]['bwd'])] for i in page_]
+            if len(page_) < lim_:
+                break
+            cursor_ = page_[-1]
+        if qh != want_:
+            bad_ = next((a_ for a_, b_ in zip(qh, want_) if a_ != b_), (qh[len(want_):] or want_[len(qh):] or [[]])[0])
+            return ('violation', 'AllHistory paged 2|3|2|3 returned %d entries, the stored history gives %d; first difference at %s '
+                    '(stored ids %s)' % (len(qh), len(want_), ' '.join(bad_), ids_[:12]))
+        qd_, qm_ = cur.one('hub.qhist.def'), cur.one('hub.qhist.max')
+        if qd_ is not None and not (qd_ and qd_[0] == 'err') and [x for x in qd_ if x] != [str(i) for i in ids_[:10]]:
+            return ('violation', 'AllHistory without limit returned ids %s, the first ten stored ids are %s' % (' '.join(qd_), ids_[:10]))
+        if qm_ is not None and len(qm_) == 2 and qm_[0] != 'err':
+            n_ = min(len(ids_), 100)
+            if qm_ != [str(n_), str(ids_[n_ - 1]) if n_ else '-']:
+                return ('violation', 'AllHistory with limit 1000 returned %s entries ending at %s; stored: %d entries, the first %d end at %s'
+                        % (qm_[0], qm_[1], len(ids_), n_, ids_[n_ - 1] if n_ else '-'))
     if prev is None or prev.one('hub.cfg') is None:
         return None
     pw = {(w[0], w[1]): (w[2], w[3]) for w in waits(prev)}
@@ -794,6 +1012,10 @@ def mon_c08(hs, prev, op, ok, trace, cur, known):
             if (e['time'], e['bamt'], e['bapp'], e['samt'], e['sapp']) != (h[i]['time'], h[i]['bamt'], h[i]['bapp'], h[i]['samt'], h[i]['sapp']):
                 return ('violation', 'release changed the time / amounts / applied rates of batch %d' % i)
     new = [i for i in h if i not in ph]
+    # P08a: last_unbonded_time (the base of every later epoch test) is written only when a batch is closed
+    if not new and not t[0].startswith('poke_') and s[6] != ps[6]:
+        return ('violation', 'last_unbonded_time moved from %d to %d in %r although no batch was undelegated (every later epoch '
+                'test is shifted)' % (ps[6], s[6], op))
     if len(new) > 1:
         return ('violation', 'one transaction closed %d batches' % len(new))
     if b[0] not in (pb[0], pb[0] + 1):
@@ -846,7 +1068,28 @@ def mon_c08(hs, prev, op, ok, trace, cur, known):
 # ------------------------------------------------------------------ C13
 def mon_c13(hs, prev, op, ok, trace, cur, known):
     t = track_inst(hs, op, ok)
-    if prev is None or not ok or t[0] != 'reg' or t[2] != 'remove':
+    if prev is None or not ok:
+        return None
+    tl = trace_lines(trace)
+    if wired(prev, hs) and wired(cur, hs):
+        # P13a: "later bonds go only to registered validators" - every Delegate of every later transaction,
+        # and of the removal transaction itself (re-bonded rewards), targets a validator of the registry
+        bad = unregistered_delegate(tl, cur)
+        if bad is not None:
+            return ('violation', 'the hub delegated %s to %s in %r, which is not (any longer) a registered validator (registry: %s)'
+                    % (bad[4], bad[3], op, ' '.join(sorted(registry_names(cur)))))
+        # P13b: a transaction that redelegates (RemoveValidator, Redelegations) changes the delegated total
+        # only by the rewards it re-bonds: a redelegation conserves the total
+        if t[0] == 'reg' and len(t) > 2 and t[2] in ('remove', 'redelegations') and not any(x[1] == 'undelegate' for x in tl):
+            rebonded = 0
+            for x in tl:
+                if x[1] == 'wasm' and x[3] == 'hub' and x[4] == 'bond_rewards':
+                    rebonded += sum(a for d, a in coins(x[5]) if d == 'usei')
+            grew = sum(delegs(cur).values()) - sum(delegs(prev).values())
+            if grew != rebonded:
+                return ('violation', 'the stake delegated by the hub changed by %d across %r, the rewards re-bonded in it are %d: '
+                        'the redelegation did not conserve the stake' % (grew, op, rebonded))
+    if t[0] != 'reg' or len(t) < 3 or t[2] != 'remove':
         return None
     v = t[3]
     # the registry's own guarantees do not depend on how the other contracts are wired
@@ -866,7 +1109,6 @@ def mon_c13(hs, prev, op, ok, trace, cur, known):
     env = prev.one('env')
     vi = chain_val_index(v)
     can = env[4][vi] == '1' if vi is not None else False
-    tl = trace_lines(trace)
     red = [x for x in tl if x[1] == 'redelegate' and x[2] == 'hub']
     if can and pd.get(v, 0) > 0:
         if cd.get(v, 0) != 0:
@@ -910,11 +1152,9 @@ def mon_c14(hs, prev, op, ok, trace, cur, known):
     gi, total, prevbal = rs
     denom = cur.one('rw.cfg')[2]
     hd = holders(cur)
-    if any(gi < h[1] for h in hd.values()):
-        return None   # a re-instantiated reward contract with stale holders is outside the property
     accrued = sum(int(x[1]) for x in cur.all('rw.accrued'))
     liquid = bank(cur, 'reward', denom)
-    if t[0] in ('inst_reward', 'reset') or (t[0] in ('disp', 'hub') and len(t) > 2 and t[2] in ('config', 'swapdenom')):
+    if t[0] in ('inst_reward', 'reset') or t[0].startswith('poke_') or (t[0] in ('disp', 'hub') and len(t) > 2 and t[2] in ('config', 'swapdenom')):
         hs['c14_ok'] = False
     if t[0] == 'reward' and len(t) > 2 and t[2] in ('config', 'swapdenom'):
         # a configuration message that changes nothing stored (the owner re-submits the same values) is
@@ -922,6 +1162,15 @@ def mon_c14(hs, prev, op, ok, trace, cur, known):
         # starts a new accounting period
         if prev is None or prev.one('rw.cfg') != cur.one('rw.cfg'):
             hs['c14_ok'] = False
+    stale = sorted(a for a, h in hd.items() if gi < h[1])
+    if stale:
+        # P14b: every writer of a holder sets its index to the global index, which only grows; instantiation
+        # clears the holders.  Once the accounting invariant has been established in this history, a holder
+        # index above the global index means the index went backwards (its rewards would underflow)
+        if hs.get('c14_ok'):
+            return ('violation', 'holder %s has index %d above the global index %d after %r (the global index never decreases, '
+                    'a holder index is always copied from it)' % (stale[0], hd[stale[0]][1], gi, op))
+        return None   # not established: a re-instantiated reward contract with stale holders is outside the property
     # the invariant is established from an instantiated, wired reward contract; it is tracked once it holds
     atom = sum(acc_atomics(gi, h) for h in hd.values())
     holds = atom <= prevbal * D and prevbal <= liquid and total == sum(h[0] for h in hd.values())
@@ -960,6 +1209,16 @@ def mon_c14(hs, prev, op, ok, trace, cur, known):
                     paid += sum(a for d, a in coins(x[4]))
             if paid != pacc.get(u, 0):
                 return ('violation', 'ClaimRewards paid %d, accrued whole-unit reward was %d' % (paid, pacc.get(u, 0)))
+            # P14a: ... in the reward coin, to the recipient named in the message (the claimer if none)
+            want_to = t[3] if len(t) > 3 and t[3] != '-' else u
+            pdenom = prev.one('rw.cfg')[2]
+            for x in trace_lines(trace):
+                if x[1] == 'bank' and x[2] == 'reward':
+                    if x[3] != want_to:
+                        return ('violation', 'ClaimRewards by %s (recipient %s) paid %s to %s' % (u, want_to, x[4], x[3]))
+                    for d_, a_ in coins(x[4]):
+                        if d_ != pdenom:
+                            return ('violation', 'ClaimRewards by %s paid %d %s, the reward coin is %s' % (u, a_, d_, pdenom))
             ph = holders(prev).get(u, (0, 0, 0))
             ch = hd.get(u, (0, 0, 0))
             if acc_atomics(gi, ch) != acc_atomics(prs[0], ph) - paid * D:
@@ -1083,7 +1342,15 @@ F2_TEXT = ('execute_dispatch_rewards emits a zero-coin BankMsg::Send when floor(
 
 def mon_c19(hs, prev, op, ok, trace, cur, known):
     t = track_inst(hs, op, ok)
-    if prev is None or t[0] != 'hub' or len(t) < 3 or t[2] != 'updateglobal':
+    if prev is None:
+        return None
+    root_ugi = t[0] == 'hub' and len(t) > 3 and t[2] == 'updateglobal'
+    # P19a: the UpdateGlobalIndex the registry sends after a redelegation (RemoveValidator by the owner,
+    # Redelegations by anybody) is the same message and is judged by the same effect clauses (no failure
+    # clause: the registry-rooted transaction has reasons of its own to fail)
+    reg_ugi = (ok and t[0] == 'reg' and len(t) > 2 and t[2] in ('remove', 'redelegations')
+               and 'm wasm reg hub update_global_index -' in trace)
+    if not (root_ugi or reg_ugi):
         return None
     if not (wired(prev, hs) and reward_wired(prev) and not paused(prev) and in_envelope(prev)):
         return None
@@ -1091,7 +1358,9 @@ def mon_c19(hs, prev, op, ok, trace, cur, known):
     if env[2] != 'ok' or env[3] != 'ok':
         return None
     hc = prev.one('hub.cfg')
-    if t[1] not in (hc[1], hc[3]) or t[3] != '0':
+    if root_ugi and (t[1] not in (hc[1], hc[3]) or t[3] != '0'):
+        return None
+    if reg_ugi and not (wired(cur, hs) and reward_wired(cur)):
         return None
     wd = {x[0]: x[1] for x in prev.all('wdaddr')}
     if wd.get('hub') != 'disp':
@@ -1118,8 +1387,13 @@ def mon_c19(hs, prev, op, ok, trace, cur, known):
     for x in cur.all('pend'):
         if x[0] == 'hub' and int(x[3]) != 0:
             return ('violation', 'pending staking reward %s %s left on %s' % (x[3], x[2], x[1]))
+    what = 'UpdateGlobalIndex' if root_ugi else 'UpdateGlobalIndex (sent by the registry in %r)' % op
     if bank(cur, 'hub', 'usei') != bank(prev, 'hub', 'usei'):
-        return ('violation', 'UpdateGlobalIndex changed the hub liquid balance')
+        return ('violation', '%s changed the hub liquid balance' % what)
+    # P19b: ... and the rest of the withdrawal bookkeeping: prev_hub_balance, last_unbonded_time, last_processed_batch
+    ps_, cs_ = stored(prev), stored(cur)
+    if ps_ is not None and cs_ is not None and ps_[5:8] != cs_[5:8]:
+        return ('violation', '%s changed prev_hub_balance / last_unbonded_time / last_processed_batch: %s -> %s' % (what, ps_[5:8], cs_[5:8]))
     for k in ('tok.bsei.info', 'tok.bsei.bal', 'tok.stsei.info', 'tok.stsei.bal', 'hub.wait', 'hub.hist', 'hub.batch'):
         if prev.all(k) != cur.all(k):
             return ('violation', 'UpdateGlobalIndex changed %s' % k)
@@ -1142,6 +1416,13 @@ def mon_c19(hs, prev, op, ok, trace, cur, known):
         cs = supply(cur, 'stsei') + b[2]
         if cq and rebonded > 0 and cs > 0 and cq[1] != rate_of(cq[3], cs):
             return ('violation', 'stsei rate after re-bonding is %d, expected %d' % (cq[1], rate_of(cq[3], cs)))
+        # P19b: the bSei rate is untouched (rewards of bSei holders are paid out, never re-bonded); with
+        # nothing re-bonded neither pool moves
+        if cq and recomputes(cur):
+            if cq[0] != pq[0]:
+                return ('violation', '%s changed the bsei rate %d -> %d (bsei pool %d -> %d)' % (what, pq[0], cq[0], pq[2], cq[2]))
+            if rebonded == 0 and (cq[2], cq[3]) != (pq[2], pq[3]):
+                return ('violation', '%s re-bonded nothing but the pools went (%d,%d) -> (%d,%d)' % (what, pq[2], pq[3], cq[2], cq[3]))
     # bSei holders' claimable total grows by what was delivered, within dust
     rs, prs = rstate(cur), rstate(prev)
     if rs and prs and prs[1] > 0:
